@@ -131,6 +131,7 @@ PKG_SUB = '# sub-module of the C20 universe\n' + '#\n' * 100 + loop_src('ps0', 9
 CELL = '''\
 import c20m_a, c20m_b
 import c20pkg.sub
+import c20base, c20m_d, c20t_1, c20t_2, c20t_3
 def c0(n):
     s = 0
     for i in range(n):
@@ -171,10 +172,12 @@ UNIVERSE = {
     10: ('c20m_a.a0', 7), 11: ('c20m_a.a1', 8), 12: ('c20m_a.KA.am', 9), 13: ('c20m_a.one', 1, 0), 14: ('c20m_a.lam2', 1, 0),
     40: ('c20m_w.norm_a', 15), 41: ('c20m_w.norm_b', 15),
     50: ('ex0', 16), 51: ('ex1', 17),
+    60: ('c20base.Base.describe', 18), 61: ('c20m_d.KD.own', 19),
+    70: ('c20t_1.trip', 20), 71: ('c20t_2.trip', 20), 72: ('c20t_3.trip', 20),
     20: ('c20m_b.b0', 10), 21: ('c20m_b.wb', 2), 22: ('c20m_b.KB.bm', 11),
     30: ('c20pkg.pinit', 12), 31: ('c20pkg.pw', 2), 32: ('c20pkg.sub.ps0', 13), 33: ('c20pkg.sub.KS.pm', 14),
 }
-METHODS = (12, 22, 33)
+METHODS = (12, 22, 33, 60, 61)
 
 
 class Sentinel:
@@ -191,6 +194,15 @@ def main():
         f.write(MOD_A)
     with open(os.path.join(root, 'c20m_b.py'), 'w') as f:
         f.write(MOD_B)
+    # a class of the named module inheriting a method from a base class that lives in ANOTHER module
+    with open(os.path.join(root, 'c20base.py'), 'w') as f:
+        f.write('# base of the C20 universe\n' + '#\n' * 160 + 'class Base:\n' + loop_src('describe', 14, 14, indent='    ', self_=True))
+    with open(os.path.join(root, 'c20m_d.py'), 'w') as f:
+        f.write('import c20base\n' + '#\n' * 190 + 'class KD(c20base.Base):\n' + loop_src('own', 15, 15, indent='    ', self_=True))
+    # three byte-identical functions, all on the same line numbers, in three files
+    for j in (1, 2, 3):
+        with open(os.path.join(root, 'c20t_%d.py' % j), 'w') as f:
+            f.write('# triplet\n' + '#\n' * 220 + loop_src('trip', 16, 16))
     for v in ('c20v_a', 'c20v_b'):
         os.makedirs(os.path.join(root, v))
         open(os.path.join(root, v, '__init__.py'), 'w').close()
@@ -228,6 +240,9 @@ def main():
     for fid, fo in funcs.items():
         c = fo.__code__
         by_code[(c.co_filename, c.co_firstlineno, c.co_name)] = fid
+    # add_function pads the bytecode of a duplicate IN PLACE (func.__code__ is rebound); every invocation gets the
+    # functions as they were defined
+    pristine = {fid: fo.__code__ for fid, fo in funcs.items()}
     sentinel = Sentinel()
     out_cases = []
 
@@ -278,6 +293,9 @@ def main():
                         with contextlib.suppress(FileNotFoundError):
                             os.unlink(iv[key + '_path'])
                 line = iv['line'].replace('@T@', iv.get('T_path', '')).replace('@D@', iv.get('D_path', ''))
+                for fid, co in pristine.items():
+                    if funcs[fid].__code__ is not co:
+                        funcs[fid].__code__ = co
                 b_before = classify(builtins.__dict__.get('profile'), profs)
                 istate = interp_state()
                 bsnap = {kk: id(v) for kk, v in builtins.__dict__.items() if kk != 'profile'}
